@@ -285,9 +285,9 @@ func TestVerifC02_Regress(t *testing.T) {
 		matcher           int
 	}
 	cases := []rc{
-		{"default", "xǅy", "ǆ", false, false, true, 0},  // F5: title-case letter, V2
-		{"default", "xⅠy", "ⅰ", false, false, true, 0},  // F5
-		{"default", "xⒶy", "ⓐ", false, false, false, 0}, // F5
+		{"default", "xǅy", "ǆ", false, false, true, 0},           // F5: title-case letter, V2
+		{"default", "xⅠy", "ⅰ", false, false, true, 0},           // F5
+		{"default", "xⒶy", "ⓐ", false, false, false, 0},          // F5
 		{"default", "xxx foo bar", "foo", false, true, false, 3}, // F9: boundary, backward
 		{"path", "xxx foo bar", "foo", false, true, false, 3},
 		{"default", "foo_bar", "foo", false, true, false, 3},
